@@ -121,11 +121,13 @@ def run(case, tier):
                             refresh = z3.Or(t == s, z3.And(t > s, t % f == 0))
                             pac_t = pac.t if isinstance(pac, SymBool) else z3.BoolVal(bool(pac))
                             out.append(prove(f"{FUNC}/refresh-flag=schedule{tag}/g{gi}", FUNC, hyp, pac_t == refresh, model_vars=mv,
-                                             text="perform_amortized_computation <=> t == start or (t > start and t % freq == 0)", case=case))
+                                             text="perform_amortized_computation <=> t == start or (t > start and t % freq == 0)", case=case,
+                                             replay=dict(kind="stepflags", g=gi, graft=bool(g[st.GRAFTING_CONFIG] is not None))))
                             ugm_t = ugm.t if isinstance(ugm, SymBool) else z3.BoolVal(bool(ugm))
                             want = z3.And(t < s, z3.BoolVal(g[st.GRAFTING_CONFIG] is not None))
                             out.append(prove(f"{FUNC}/grafting-flag=warmup{tag}/g{gi}", FUNC, hyp, ugm_t == want, model_vars=mv,
-                                             text="use_grafting_method <=> t < start and grafting configured", case=case))
+                                             text="use_grafting_method <=> t < start and grafting configured", case=case,
+                                             replay=dict(kind="stepflags", g=gi, graft=bool(g[st.GRAFTING_CONFIG] is not None))))
                     out.append(result(f"{FUNC}/cover:paths[step/{sub}]", FUNC, "violated" if paths else "discharged", kind="cover", case=case,
                                       extra=dict(paths=len(paths))))
     # canary
@@ -134,3 +136,38 @@ def run(case, tier):
                      z3.Or(z3.Int("t") == z3.Int("s"), z3.And(z3.Int("t") > z3.Int("s"), z3.Int("t") % z3.Int("f") == 0)),
                      kind="canary", text="deliberately false: every step is a refresh step", case=case))
     return out
+
+
+def native_flags(freq, start, t, graft):
+    """Real optimizer: flags handed to the group step at step t (1-based) with the given schedule."""
+    import torch
+    from distributed_shampoo.distributed_shampoo import DistributedShampoo
+    from distributed_shampoo import shampoo_types as st
+    p = torch.nn.Parameter(torch.ones(2, 2))
+    opt = DistributedShampoo([p], lr=0.0, precondition_frequency=freq, start_preconditioning_step=start, epsilon=1.0,
+                             grafting_config=st.SGDGraftingConfig() if graft else None)
+    rec = []
+    real = opt._per_group_step
+
+    def spy(*a):
+        rec.append((int(a[1]), bool(a[9]), bool(a[12])))
+        return real(*a)
+
+    opt._per_group_step = spy
+    for _ in range(t):
+        p.grad = torch.ones(2, 2)
+        opt.step()
+    return rec[-1]
+
+
+def replay_flags(rp, m):
+    g = rp["g"]
+    freq, start, t0 = m.get(f"freq_{g}"), m.get(f"start_{g}"), m.get(f"t0_{g}")
+    if None in (freq, start, t0) or t0 + 1 > 400 or freq < 1 or start < freq:
+        return False, "model outside the natively replayable range"
+    t = t0 + 1
+    step, pac, ugm = native_flags(freq, start, t, rp.get("graft", False))
+    want_pac = (t == start) or (t > start and t % freq == 0)
+    want_ugm = t < start and rp.get("graft", False)
+    bad = step != t or pac != want_pac or ugm != want_ugm
+    return bad, f"precondition_frequency={freq} start={start} step {t}: real step() passed refresh={pac} grafting={ugm}; schedule says refresh={want_pac} grafting={want_ugm}"
